@@ -247,6 +247,77 @@ let do_behera t =
   let g = opt t in let e = opt t in let c = opt t in
   out_outcome out_control (new_behera g e c)
 
+(* ---------- responses (C04), mux (C03), constructors (C16) ---------- *)
+let next_ropt t : ropt =
+  match next t with
+  | "diag" -> WDiag (next_hex t) | "matched" -> WMatched (next_hex t)
+  | "code" -> WCode (next_z t) | "app" -> WApp (next_z t)
+  | "attrs" -> WAttrs (next_gomap t)
+  | "nil" | "other" -> OIgnored
+  | k -> failwith ("bad ropt " ^ k)
+let next_setter t : setter =
+  match next t with
+  | "code" -> SCode (next_z t) | "diag" -> SDiag (next_hex t) | "matched" -> SMatched (next_hex t)
+  | "ctrls" -> SControls (next_controls t)
+  | "addattr" -> let n = next_hex t in let vs = next_list t next_hex in SAddAttr (n, vs)
+  | "name" -> SName (next_hex t)
+  | k -> failwith ("bad setter " ^ k)
+let next_rkind t = match next t with
+  | "general" -> KGeneral | "bind" -> KBind | "ext" -> KExtended | "done" -> KSearchDone
+  | "entry" -> KEntry | "modify" -> KModify | k -> failwith ("bad rkind " ^ k)
+
+let out_raw_control (c : raw_control) =
+  hex_of_bytes c.rc_oid ^ " " ^ b01 c.rc_crit ^ " " ^ (match c.rc_value with None -> "~" | Some v -> hex_of_bytes v)
+let out_attrs (l : (n list * n list list) list) =
+  out_list (fun (n, vs) -> hex_of_bytes n ^ " " ^ out_list hex_of_bytes vs) l
+let sort_first k (l : (n list * n list list) list) =
+  let rec split i l acc = if i = 0 then (List.rev acc, l) else match l with [] -> (List.rev acc, []) | x :: r -> split (i - 1) r (x :: acc) in
+  let (a, b) = split k l [] in
+  List.sort (fun (x, _) (y, _) -> compare (hex_of_bytes x) (hex_of_bytes y)) a @ b
+let out_parsed mapkeys = function
+  | None -> "UNPARSEABLE"
+  | Some (PResult (id, tag, code, matched, diag, cs)) ->
+    String.concat " " ["result"; string_of_z id; string_of_n tag; string_of_z code; hex_of_bytes matched; hex_of_bytes diag; out_list out_raw_control cs]
+  | Some (PEntry (id, dn, attrs)) ->
+    String.concat " " ["entry"; string_of_z id; hex_of_bytes dn; out_attrs (sort_first mapkeys attrs)]
+
+let do_resp t =
+  let id = next_z t in let k = next_rkind t in let dn = next_hex t in
+  let opts = next_list t next_ropt in let sets = next_list t next_setter in
+  let mapkeys = List.fold_left (fun acc o -> match o with WAttrs m -> List.length m | _ -> acc) 0 opts in
+  match new_response true k id dn opts with
+  | Ok r ->
+    let r = run_setters r sets in
+    let bs = response_bytes r in
+    (if mapkeys >= 2 then "-" else hex_of_bytes bs) ^ " | " ^ out_parsed mapkeys (parse_response prim_reject bs)
+  | Err -> "ERR" | Panic -> "PANIC"
+
+let next_hopt t = match next t with "nil" -> None | s -> Some (nat_of_int (int_of_string s))
+let rec int_of_nat = function O -> 0 | S n -> 1 + int_of_nat n
+let next_reg t : reg =
+  match next t with
+  | "bind" -> RegRoute (RtBind, next_hopt t)
+  | "search" -> let h = next_hopt t in let b = next_hex t in let f = next_hex t in let s = next_z t in RegRoute (RtSearch (b, f, s), h)
+  | "ext" -> let h = next_hopt t in let n = next_hex t in RegRoute (RtExt n, h)
+  | "modify" -> RegRoute (RtModify, next_hopt t)
+  | "add" -> RegRoute (RtAdd, next_hopt t)
+  | "del" -> RegRoute (RtDelete, next_hopt t)
+  | "default" -> RegDefault (next_hopt t)
+  | "unbind" -> RegUnbind (next_hopt t)
+  | k -> failwith ("bad reg " ^ k)
+let do_serve t =
+  let regs = next_list t next_reg in
+  let r = next_request t in
+  let m = msg_of_request r in
+  match serve ascii_eqfold true (build regs) m with
+  | Run h -> "RUN " ^ string_of_int (int_of_nat h)
+  | Refuse resp -> "REFUSE " ^ out_parsed 0 (parse_response prim_reject (response_bytes resp))
+let do_muxreg t =
+  let regs = next_list t next_reg in
+  let m = build regs in
+  let errs = List.fold_left (fun (m, acc) g -> let (m', ok) = register m g in (m', acc ^ (if ok then "0" else "1"))) (mux_empty, "") regs |> snd in
+  String.concat " " ["OK"; string_of_int (List.length m.routes); b01 (m.dflt <> None); b01 (m.unbind <> None); "e" ^ errs]
+
 let dispatch kind t =
   match kind with
   | "convert" -> do_convert t
@@ -264,6 +335,9 @@ let dispatch kind t =
   | "ctl" -> do_ctl t
   | "ctldecode" -> do_ctldecode t
   | "behera" -> do_behera t
+  | "resp" -> do_resp t
+  | "serve" -> do_serve t
+  | "muxreg" -> do_muxreg t
   | k -> failwith ("unknown kind " ^ k)
 
 let () =
